@@ -173,7 +173,8 @@ def body(chk: check.Check):
                 if root_op['op'] != 'Minus':
                     continue
                 vals = exprreplay.expected_values(rec)
-                if all(abs(v or 0) < 1e-9 for row in vals for v in row):
+                # the corruption must change the value AT THE POINT this trace was recorded at (else it is masked)
+                if all(abs(row[tr['p'] - 1] or 0) < 1e-9 for row in vals):
                     continue
                 t2 = exprtrace.corrupt(dict(tr, lines=tr['lines']), how)
                 # corrupt the ROOT line only
